@@ -47,7 +47,7 @@ pub fn gen_case(prop: &str, verif_seed: u64, idx: u64) -> BtReplay {
     let cache = *rng.pick(&[16usize, 24, 32, 64, 10000]);
     let n = if rng.chance(25) { rng.range(150, 400) } else { rng.range(10, 120) } as usize;
     let keyspace = (n as i64 * *rng.pick(&[1i64, 2, 4])).max(8);
-    let mode = rng.below(5);
+    let mode = rng.below(6);
     // one size per tree (open finding D31) and small enough never to need an overflow page at any
     // page size / min keys of the swarm (open findings D31b/D32)
     let payload_len = if std::env::var("AXSIM_NOGUARD").map(|g| g.contains("payload_400")).unwrap_or(false) { 400 } else { *rng.pick(&[8usize, 24, 104, 200]) };
@@ -67,7 +67,12 @@ pub fn gen_case(prop: &str, verif_seed: u64, idx: u64) -> BtReplay {
             _ => rng.below(keyspace as u64) as i64,
         };
         let r = rng.below(100);
-        ops.push(if mode == 3 && i > n / 2 && i < n / 2 + n / 4 {
+        ops.push(if mode >= 4 {
+            // build the tree, remove every key in order (the tree loses all its levels), rebuild
+            let third = (n / 3).max(1) as i64;
+            let j = i as i64;
+            if j < third { BtOp::Insert(j) } else if j < 2 * third { BtOp::Remove(j - third) } else { BtOp::Insert(j - 2 * third) }
+        } else if mode == 3 && i > n / 2 && i < n / 2 + n / 4 {
             // delete-everything phase
             BtOp::Remove(rng.below(keyspace as u64) as i64)
         } else if r < 45 {
